@@ -119,3 +119,140 @@ def parse_proto(relpath, repo=None):
       fields[f.group(3)] = (f.group(2), bool(f.group(1)))
     messages[m.group(1)] = fields
   return enums, messages
+
+
+MUTATORS = {"append", "extend", "insert", "pop", "remove", "clear", "add", "update", "discard", "setdefault", "sort",
+            "reverse", "popitem", "appendleft", "popleft"}
+
+
+def _root_name(e):
+  while isinstance(e, (ast.Subscript, ast.Attribute)):
+    e = e.value
+  return e.id if isinstance(e, ast.Name) else None
+
+
+def loop_carried(loop):
+  """Names through which one iteration of `loop` can influence a later one: variables assigned or mutated in the body
+  that the body also READS before (re)defining them in the same iteration.  Write-only accumulators (x = True,
+  x |= r, x += 1, xs.append(v) as a statement, xs[i] = v) are not reads.  Syntactic, conservative: branches are joined
+  by intersection of the definitely-assigned sets, loop bodies and try blocks may not execute.  Objects reached through
+  the loop variable itself (artifact.test_info...) are per-iteration state and not tracked here."""
+  body = loop.body
+  assigned, mutated = set(), set()
+  targets = {n.id for n in ast.walk(loop.target) if isinstance(n, ast.Name)} if isinstance(loop, ast.For) else set()
+
+  def tnames(t):
+    return {n.id for n in ast.walk(t) if isinstance(n, ast.Name) and isinstance(n.ctx, ast.Store)}
+  for nd in ast.walk(ast.Module(body=body, type_ignores=[])):
+    if isinstance(nd, (ast.ListComp, ast.SetComp, ast.DictComp, ast.GeneratorExp, ast.Lambda)):
+      continue
+    if isinstance(nd, ast.Assign):
+      for t in nd.targets:
+        if isinstance(t, (ast.Subscript, ast.Attribute)):
+          r = _root_name(t)
+          if r:
+            mutated.add(r)
+        else:
+          assigned |= tnames(t)
+    elif isinstance(nd, (ast.AugAssign, ast.AnnAssign)):
+      if isinstance(nd.target, ast.Name):
+        assigned.add(nd.target.id)
+      else:
+        r = _root_name(nd.target)
+        if r:
+          mutated.add(r)
+    elif isinstance(nd, ast.For):
+      assigned |= tnames(nd.target)
+    elif isinstance(nd, ast.With):
+      for it in nd.items:
+        if it.optional_vars is not None:
+          assigned |= tnames(it.optional_vars)
+    elif isinstance(nd, ast.NamedExpr):
+      assigned.add(nd.target.id)
+    elif isinstance(nd, ast.Call) and isinstance(nd.func, ast.Attribute) and nd.func.attr in MUTATORS:
+      r = _root_name(nd.func.value)
+      if r:
+        mutated.add(r)
+  # comprehension-bound names shadow
+  tracked = (assigned | mutated) - targets
+  exposed = {}
+
+  def reads(e, defined, skip=()):
+    if e is None:
+      return
+    bound = set()
+    for nd in ast.walk(e):
+      if isinstance(nd, ast.comprehension):
+        bound |= tnames(nd.target)
+      elif isinstance(nd, ast.Lambda):
+        bound |= {a.arg for a in nd.args.args}
+    for nd in ast.walk(e):
+      if isinstance(nd, ast.Name) and isinstance(nd.ctx, ast.Load) and nd.id in tracked and nd.id not in defined \
+          and nd.id not in bound and id(nd) not in skip:
+        exposed.setdefault(nd.id, getattr(nd, "lineno", 0))
+
+  def walk(stmts, defined):
+    for s in stmts:
+      if isinstance(s, ast.Assign):
+        reads(s.value, defined)
+        for t in s.targets:
+          if isinstance(t, (ast.Subscript, ast.Attribute)):
+            # xs[i] = v / obj.f = v: index expressions are reads, the container itself is written, not read
+            skip = {id(n) for n in ast.walk(t) if isinstance(n, ast.Name) and n.id == _root_name(t)}
+            reads(t, defined, skip)
+          else:
+            defined |= tnames(t)
+      elif isinstance(s, ast.AugAssign):
+        reads(s.value, defined)
+        if isinstance(s.target, ast.Name):
+          pass        # accumulator position: x op= e does not let x influence anything else
+        else:
+          skip = {id(n) for n in ast.walk(s.target) if isinstance(n, ast.Name) and n.id == _root_name(s.target)}
+          reads(s.target, defined, skip)
+      elif isinstance(s, ast.AnnAssign):
+        reads(s.value, defined)
+        if isinstance(s.target, ast.Name) and s.value is not None:
+          defined.add(s.target.id)
+      elif isinstance(s, ast.Expr):
+        v = s.value
+        if isinstance(v, ast.Call) and isinstance(v.func, ast.Attribute) and v.func.attr in MUTATORS - {"pop", "popitem", "popleft", "setdefault"}:
+          r = _root_name(v.func.value)
+          skip = {id(n) for n in ast.walk(v.func.value) if isinstance(n, ast.Name) and n.id == r}
+          reads(v, defined, skip)
+        else:
+          reads(v, defined)
+      elif isinstance(s, ast.If):
+        reads(s.test, defined)
+        d1 = walk(s.body, set(defined))
+        d2 = walk(s.orelse, set(defined))
+        defined |= (d1 & d2)
+      elif isinstance(s, ast.For):
+        reads(s.iter, defined)
+        walk(s.body, set(defined) | tnames(s.target))
+        walk(s.orelse, set(defined))
+      elif isinstance(s, ast.While):
+        reads(s.test, defined)
+        walk(s.body, set(defined))
+        walk(s.orelse, set(defined))
+      elif isinstance(s, ast.With):
+        for it in s.items:
+          reads(it.context_expr, defined)
+          if it.optional_vars is not None:
+            defined |= tnames(it.optional_vars)
+        defined |= walk(s.body, set(defined)) - defined
+      elif isinstance(s, ast.Try):
+        walk(s.body, set(defined))
+        for h in s.handlers:
+          walk(h.body, set(defined))
+        walk(s.orelse, set(defined))
+        walk(s.finalbody, set(defined))
+      elif isinstance(s, (ast.Break, ast.Continue, ast.Pass, ast.Import, ast.ImportFrom, ast.Global, ast.Nonlocal,
+                          ast.FunctionDef, ast.ClassDef)):
+        pass
+      else:
+        for ch in ast.iter_child_nodes(s):
+          if isinstance(ch, ast.expr):
+            reads(ch, defined)
+    return defined
+  walk(body, set())
+  return exposed
